@@ -138,14 +138,18 @@ Definition dm_pairs (qas : list (dm_query * dm_ans)) : list (N * dname) :=
   flat_map (fun qa => match qa with (DqByIndex i, DaEntry (Ok e)) => [(i, fst e)] | _ => [] end) qas.
 Definition dm_bucket_answers (qas : list (dm_query * dm_ans)) : list (N * list dentry) :=
   flat_map (fun qa => match qa with (DqBucket k, DaList l) => [(k, l)] | _ => [] end) qas.
-(* when the buckets 0 .. m-1 were all read and m * BUCKET_SIZE covers the registry, their
-   concatenation enumerates every document exactly once *)
+(* a bucket answer read as index-based access: entry j of bucket k sits at index k * BUCKET_SIZE + j *)
+Definition dm_bucket_pairs (c : dm_cfg) (kl : N * list dentry) : list (N * dname) :=
+  combine (map (fun j => N.of_nat (N.to_nat (fst kl) * dm_bs c + j)) (seq 0 (length (snd kl)))) (map fst (snd kl)).
+(* all index-based observations of one event (get_document_by_index and every bucket read, in any
+   order, repeated or not) form ONE injective relation index -> name: no document at two places, no
+   two documents at one place, repeated reads agree, buckets agree with by-index access; and every
+   bucket read has exactly the entries of its page: min(BUCKET_SIZE, size - k * BUCKET_SIZE).
+   (Hence reading the pages 0 .. ceil(size / BUCKET_SIZE) - 1 enumerates every document exactly once.) *)
 Definition dm_cross (c : dm_cfg) (a : list dentry) (qas : list (dm_query * dm_ans)) : bool :=
-  injb N.eqb (dm_pairs qas) &&
-  (let bs := dm_bucket_answers qas in
-   let m := length bs in
-   if list_eqb N.eqb (map fst bs) (map N.of_nat (seq 0 m)) && (length a <=? m * dm_bs c)
-   then enumb N.eqb (map fst (flat_map snd bs)) (map fst a) else true).
+  injb N.eqb (dm_pairs qas ++ flat_map (dm_bucket_pairs c) (dm_bucket_answers qas))
+  && forallb (fun kl => length (snd kl) =? Nat.min (dm_bs c) (length a - N.to_nat (fst kl) * dm_bs c))
+             (dm_bucket_answers qas).
 Definition dm_mon (c : dm_cfg) := lmon (fun _ : N => spec_unit (dm_spec c)) dm_chk (dm_cross c).
 
 (* ---------------- 3. claim topics and issuers: two sets and one relation ---------------- *)
@@ -367,8 +371,9 @@ Definition ic_mon := lmon (fun _ : N => ic_spec) ic_chk (fun _ _ => true).
 
 (* ---------------- 8. smart-account context rules: a map id -> rule; ids never reused ---------------- *)
 Record sa_ref := { rRules : list rule;      (* the live rules *)
-                   rBound : N }.            (* every id handed out so far is below this *)
-Definition sa_ref0 : sa_ref := {| rRules := []; rBound := 0%N |}.
+                   rBound : N;              (* every id handed out so far is below this *)
+                   rAdds : N }.             (* number of rules ever added *)
+Definition sa_ref0 : sa_ref := {| rRules := []; rBound := 0%N; rAdds := 0%N |}.
 (* same rule up to the order of its signer and policy lists *)
 Definition rule_sim (x y : rule) : bool :=
   N.eqb (r_id x) (r_id y) && ctxt_eqb (r_ctx x) (r_ctx y) && N.eqb (r_name x) (r_name y)
@@ -393,11 +398,13 @@ Definition sa_spec (c : sa_cfg) (a : sa_ref) (k : sa_call) (o : res (option rule
                     || negb (until_ok c until) || negb (sa_validate c sg pol)
                     || existsb (same_fp cx sg pol) (rRules a) || negb (forallb snd po) in
       match o with
-      | Fail => if refuse || (4294967295 <=? rBound a)%N then Some a else None
+      (* a refusal is legitimate when a documented condition fails, or when all 2^32 - 1 usable ids have
+         been handed out (one per rule ever added; ids are never reused) *)
+      | Fail => if refuse || (4294967295 <=? rAdds a)%N then Some a else None
       | Ok (Some r) =>
           let want := {| r_id := r_id r; r_ctx := cx; r_name := name; r_signers := sg; r_policies := pol; r_until := until |} in
           if negb refuse && (rBound a <=? r_id r)%N && rule_sim r want
-          then Some {| rRules := rRules a ++ [want]; rBound := (r_id r + 1)%N |} else None
+          then Some {| rRules := rRules a ++ [want]; rBound := (r_id r + 1)%N; rAdds := (rAdds a + 1)%N |} else None
       | Ok None => None
       end
   | SaUpdateName id name =>
@@ -405,7 +412,7 @@ Definition sa_spec (c : sa_cfg) (a : sa_ref) (k : sa_call) (o : res (option rule
       | Some r, Ok (Some r') =>
           let want := {| r_id := id; r_ctx := r_ctx r; r_name := name; r_signers := r_signers r;
                          r_policies := r_policies r; r_until := r_until r |} in
-          if rule_sim r' want then Some {| rRules := put_rule want (rRules a); rBound := rBound a |} else None
+          if rule_sim r' want then Some {| rRules := put_rule want (rRules a); rBound := rBound a; rAdds := rAdds a |} else None
       | None, Fail => Some a
       | _, _ => None
       end
@@ -415,14 +422,14 @@ Definition sa_spec (c : sa_cfg) (a : sa_ref) (k : sa_call) (o : res (option rule
           let want := {| r_id := id; r_ctx := r_ctx r; r_name := r_name r; r_signers := r_signers r;
                          r_policies := r_policies r; r_until := until |} in
           if until_ok c until && rule_sim r' want
-          then Some {| rRules := put_rule want (rRules a); rBound := rBound a |} else None
+          then Some {| rRules := put_rule want (rRules a); rBound := rBound a; rAdds := rAdds a |} else None
       | Some r, Fail => if until_ok c until then None else Some a
       | None, Fail => Some a
       | _, _ => None
       end
   | SaRemoveRule id =>
       match find_rule id (rRules a), o with
-      | Some _, Ok None => Some {| rRules := drop_rule id (rRules a); rBound := rBound a |}
+      | Some _, Ok None => Some {| rRules := drop_rule id (rRules a); rBound := rBound a; rAdds := rAdds a |}
       | None, Fail => Some a
       | _, _ => None
       end
@@ -435,7 +442,7 @@ Definition sa_spec (c : sa_cfg) (a : sa_ref) (k : sa_call) (o : res (option rule
                 end in
       match find_rule id (rRules a), o with
       | Some r, Ok None =>
-          if ok then Some {| rRules := put_rule (with_sp r (r_signers r ++ [x]) (r_policies r)) (rRules a); rBound := rBound a |} else None
+          if ok then Some {| rRules := put_rule (with_sp r (r_signers r ++ [x]) (r_policies r)) (rRules a); rBound := rBound a; rAdds := rAdds a |} else None
       | _, Fail => if ok then None else Some a
       | _, _ => None
       end
@@ -448,7 +455,7 @@ Definition sa_spec (c : sa_cfg) (a : sa_ref) (k : sa_call) (o : res (option rule
                 end in
       match find_rule id (rRules a), o with
       | Some r, Ok None =>
-          if ok then Some {| rRules := put_rule (with_sp r (rem signer_eqb x (r_signers r)) (r_policies r)) (rRules a); rBound := rBound a |} else None
+          if ok then Some {| rRules := put_rule (with_sp r (rem signer_eqb x (r_signers r)) (r_policies r)) (rRules a); rBound := rBound a; rAdds := rAdds a |} else None
       | _, Fail => if ok then None else Some a
       | _, _ => None
       end
@@ -461,7 +468,7 @@ Definition sa_spec (c : sa_cfg) (a : sa_ref) (k : sa_call) (o : res (option rule
                 end in
       match find_rule id (rRules a), o with
       | Some r, Ok None =>
-          if ok then Some {| rRules := put_rule (with_sp r (r_signers r) (r_policies r ++ [p])) (rRules a); rBound := rBound a |} else None
+          if ok then Some {| rRules := put_rule (with_sp r (r_signers r) (r_policies r ++ [p])) (rRules a); rBound := rBound a; rAdds := rAdds a |} else None
       | _, Fail => if ok then None else Some a
       | _, _ => None
       end
@@ -474,7 +481,7 @@ Definition sa_spec (c : sa_cfg) (a : sa_ref) (k : sa_call) (o : res (option rule
                 end in
       match find_rule id (rRules a), o with
       | Some r, Ok None =>
-          if ok then Some {| rRules := put_rule (with_sp r (r_signers r) (rem N.eqb p (r_policies r))) (rRules a); rBound := rBound a |} else None
+          if ok then Some {| rRules := put_rule (with_sp r (r_signers r) (rem N.eqb p (r_policies r))) (rRules a); rBound := rBound a; rAdds := rAdds a |} else None
       | _, Fail => if ok then None else Some a
       | _, _ => None
       end
@@ -498,21 +505,45 @@ Definition sa_chk (a : sa_ref) (qa : sa_query * sa_ans) : bool :=
 Definition sa_mon (c : sa_cfg) := lmon (fun now : N => sa_spec (sa_with_now c now)) sa_chk (fun _ _ => true).
 
 (* ---------------- the monitor of a trace ---------------- *)
+Definition tb_gap (evs : list (ev (tcall tb_call) unit tb_query tb_ans)) : N := gap_stable tb_pairs [] evs 0%N.
+Definition dm_gap (evs : list (ev (tcall dm_call) unit dm_query dm_ans)) : N := gap_stable dm_pairs [] evs 0%N.
+
 Definition monitor (t : trace) : N :=
   match t with
   | TrBinder bs max pre evs =>
-      let c := tb_cfg_of bs max in if tb_pre_ok c pre then mon_run (tb_mon c) (pre, 0%N) evs 0%N else 1%N
+      let c := tb_cfg_of bs max in
+      if tb_pre_ok c pre
+      then first_idx (first_idx (mon_run (tb_mon c) (pre, 0%N) evs 0%N) (tb_gap evs)) (nonempty_obs evs 0%N) else 1%N
   | TrDocs bs max mu pre evs =>
-      let c := dm_cfg_of bs max mu in if dm_pre_ok c pre then mon_run (dm_mon c) (pre, 0%N) evs 0%N else 1%N
-  | TrCTI mt mi evs => mon_run (cti_mon (cti_cfg_of mt mi)) (cti_ref0, 0%N) evs 0%N
-  | TrKeys mk mr evs => mon_run (ck_mon (ck_cfg_of mk mr)) ([], 0%N) evs 0%N
-  | TrIRS mc mm ml evs => mon_run (irs_mon (irs_cfg_of mc mm ml)) (irs_ref0, 0%N) evs 0%N
-  | TrCM mx evs => mon_run (cm_mon (cm_cfg_of mx)) (cm_init, 0%N) evs 0%N
-  | TrIC evs => mon_run ic_mon ([], 0%N) evs 0%N
-  | TrSA mr ms mp now evs => mon_run (sa_mon (sa_cfg_of mr ms mp now)) (sa_ref0, now) evs 0%N
+      let c := dm_cfg_of bs max mu in
+      if dm_pre_ok c pre
+      then first_idx (first_idx (mon_run (dm_mon c) (pre, 0%N) evs 0%N) (dm_gap evs)) (nonempty_obs evs 0%N) else 1%N
+  | TrCTI mt mi evs => first_idx (mon_run (cti_mon (cti_cfg_of mt mi)) (cti_ref0, 0%N) evs 0%N) (nonempty_obs evs 0%N)
+  | TrKeys mk mr evs => first_idx (mon_run (ck_mon (ck_cfg_of mk mr)) ([], 0%N) evs 0%N) (nonempty_obs evs 0%N)
+  | TrIRS mc mm ml evs => first_idx (mon_run (irs_mon (irs_cfg_of mc mm ml)) (irs_ref0, 0%N) evs 0%N) (nonempty_obs evs 0%N)
+  | TrCM mx evs => first_idx (mon_run (cm_mon (cm_cfg_of mx)) (cm_init, 0%N) evs 0%N) (nonempty_obs evs 0%N)
+  | TrIC evs => first_idx (mon_run ic_mon ([], 0%N) evs 0%N) (nonempty_obs evs 0%N)
+  | TrSA mr ms mp now evs => first_idx (mon_run (sa_mon (sa_cfg_of mr ms mp now)) (sa_ref0, now) evs 0%N) (nonempty_obs evs 0%N)
   end.
 
-Definition check (t : trace) : verdict := (diff t, monitor t, 0%N).
+(* ---- the documented values of the limits on the pinned tree (/repo @ 4342d51).  The limits are
+   PARAMETERS of models, theorems and monitors (the harness prints the current `pub const`s into
+   every trace header), so a changed constant is not a property violation.  That it differs from
+   the documented value is reported separately: class 9 in the verdict (visible in replay files)
+   and the harness label `limits.changed.<NAME>` instead of `limits.as_documented`. ---- *)
+Definition limits_as_documented (t : trace) : bool :=
+  match t with
+  | TrBinder bs max _ _ => (bs =? 100)%N && (max =? 10000)%N            (* BUCKET_SIZE, MAX_TOKENS *)
+  | TrDocs bs max mu _ _ => (bs =? 50)%N && (max =? 5000)%N && (mu =? 200)%N   (* BUCKET_SIZE, MAX_DOCUMENTS, MAX_URI_LEN *)
+  | TrCTI mt mi _ => (mt =? 15)%N && (mi =? 50)%N                       (* MAX_CLAIM_TOPICS, MAX_ISSUERS *)
+  | TrKeys mk mr _ => (mk =? 50)%N && (mr =? 20)%N                      (* MAX_KEYS_PER_TOPIC, MAX_REGISTRIES_PER_KEY *)
+  | TrIRS mc mm ml _ => (mc =? 15)%N && (mm =? 10)%N && (ml =? 100)%N   (* MAX_COUNTRY_ENTRIES, MAX_METADATA_ENTRIES, MAX_METADATA_STRING_LEN *)
+  | TrCM mx _ => (mx =? 20)%N                                           (* MAX_MODULES *)
+  | TrIC _ => true
+  | TrSA mr ms mp _ _ => (mr =? 15)%N && (ms =? 15)%N && (mp =? 5)%N    (* MAX_CONTEXT_RULES, MAX_SIGNERS, MAX_POLICIES *)
+  end.
+
+Definition check (t : trace) : verdict := (diff t, monitor t, if limits_as_documented t then 0%N else 9%N).
 Definition check_all (ts : list trace) : list verdict := map check ts.
 
 Local Close Scope nat_scope.
@@ -547,7 +578,12 @@ Definition observe_model (k : calls) : trace :=
    duplicate-free lists within the capacity and BUCKET_SIZE > 0 (what the harness prints) *)
 Definition calls_wf (k : calls) : bool :=
   match k with
-  | CsBinder bs max pre _ => tb_pre_ok (tb_cfg_of bs max) pre
-  | CsDocs bs max mu pre _ => dm_pre_ok (dm_cfg_of bs max mu) pre
-  | _ => true
+  | CsBinder bs max pre cs => tb_pre_ok (tb_cfg_of bs max) pre && forallb (@has_queries _ _) cs
+  | CsDocs bs max mu pre cs => dm_pre_ok (dm_cfg_of bs max mu) pre && forallb (@has_queries _ _) cs
+  | CsCTI _ _ cs => forallb (@has_queries _ _) cs
+  | CsKeys _ _ cs => forallb (@has_queries _ _) cs
+  | CsIRS _ _ _ cs => forallb (@has_queries _ _) cs
+  | CsCM _ cs => forallb (@has_queries _ _) cs
+  | CsIC cs => forallb (@has_queries _ _) cs
+  | CsSA _ _ _ _ cs => forallb (@has_queries _ _) cs
   end.
